@@ -10,7 +10,7 @@ SPEC = {
     "uses_gen": False,
     "cmd": "c18",
     "budget": (300, 4000),
-    "header": "From Sky Require Import Base.Uint Model.WalletCrypt.\nOpen Scope Z_scope.",
+    "header": "From Coq Require Import Uint63.\nFrom Sky Require Import Base.Uint Base.BytesPack Model.WalletCrypt.\nOpen Scope Z_scope.",
     "corr": "C18_corr.v",
     "prop": "C18_prop.v",
     "groups": {
